@@ -82,11 +82,6 @@ def build(P, text):
     I = F.make_interp(P)
     M.install_rawconfigparser(I)
     M.install_cexprtk(I)
-    # the potential-definition grammar (pyparsing) is not involved in variable handling: keep the definition text
-    def pmr(i, fv, a, k, n):
-        tt = k.get("tuple_type", a[3] if len(a) > 3 else i.module_global(P.module("atsim.potentials.config._common"), "PairPotentialTuple"))
-        return i.call(tt, [a[1], Opaque(("definition", a[2].key()))], {})
-    I.hooks[CP + ":ConfigParser._parse_multi_range"] = pmr
     try:
         cp = I.instantiate(P.cls(CP, "ConfigParser"), [PyObjV(M.TextFile(text))], {}, None)
     except RaiseSignal as e:
